@@ -141,7 +141,9 @@ pub fn record_c11(rec: &mut Recorder, seed: u64, thorough: bool) {
     let n = if thorough { 500 } else { 150 };
     for it in 0..n {
         let m = if it % 10 == 9 { rng.gen_range(7..=8) } else { 1 + it % 6 };
-        let c = gen_case(&mut rng, m, it);
+        let mut c = gen_case(&mut rng, m, it);
+        // flat matrices (every finite entry the same integer, e.g. the log-odds of equal counts): offset = largest entry
+        if it % 12 == 7 { let v = [0i64, 8, -12, 4][(it / 12) % 4]; for row in c.cells.iter_mut() { for x in row.iter_mut() { *x = v; } } rec.class("flat_matrix"); }
         let c = if it % 4 == 2 && m <= 6 { wildcard_variant(&mut rng, c, it / 4) } else { c };
         let kk = kk_of(&c);
         let dn = den(&c);
@@ -320,6 +322,42 @@ fn tiny_frequency_c12(rec: &mut Recorder, rng: &mut impl Rng, thorough: bool) {
     }
 }
 
+/// Queries just above an attainable score (s = a + 3e-8): the range cannot collapse before the granularity is finer than
+/// that distance, so the refinement runs through g = 1e-7 .. 1e-10 (events carry `eps`; see Trace_Tfm!EpsHi / EpsLo).
+fn near_attainable_c12(rec: &mut Recorder, rng: &mut impl Rng, thorough: bool) {
+    for it in 0..(if thorough { 40 } else { 12 }) {
+        let m = 2 + it % 4;
+        let mut c = gen_case(rng, m, it);
+        if c.bd == 10 { c.bn = vec![1, 3, 3, 1]; c.bd = 8; }      // dyadic backgrounds only: numerators are then exact at every step
+        let dn = den(&c);
+        let att = attainable(&c);
+        let pssm = build(&c);
+        for _ in 0..(if thorough { 5 } else { 3 }) {
+            let a = att[rng.gen_range(0..att.len())];
+            let s = a as f64 / c.g as f64 + 3.0e-8;
+            let r = guarded(|| {
+                let mut t = TfmPvalue::new(&pssm);
+                let mut iters = Vec::new();
+                for (k, it) in t.approximate_pvalue(s).enumerate() {
+                    let (pa, ea) = num(*it.range.start(), dn);
+                    let (pb, eb) = num(*it.range.end(), dn);
+                    let gk = if k + 1 <= 9 { 10i64.pow(k as u32 + 1) } else { 1_000_000_000 };
+                    iters.push(json!({"k": k + 1, "ginv": gk, "pmin": pa, "pmax": pb, "exact": if ea && eb {1} else {0}, "conv": it.converged}));
+                    if k >= 12 { break; }
+                }
+                iters
+            });
+            rec.reset();
+            rec.class("tfm_pvalue");
+            rec.class("query_just_above_an_attainable_score");
+            rec.nontrivial(&(c.cells.clone(), c.bn.clone(), a));
+            let mut e = json!({"ev":"tfm_pvalue","wild":"none","eps":1,"K":5,"G":c.g,"pssm":pssm_json(&c),"bn":bn5(&c),"bd":c.bd,"den":dn as i64,"s8":2 * a});
+            match r { Ok(v) => { if v.len() >= 8 { rec.class("refined_below_1e-7"); } e["ret"] = json!("ok"); e["iters"] = json!(v); } Err(msg) => { e["ret"] = json!("panic"); e["msg"] = json!(msg); e["iters"] = json!([]); } }
+            rec.emit(e);
+        }
+    }
+}
+
 pub fn record_c12(rec: &mut Recorder, seed: u64, thorough: bool) {
     let mut rng = rng(seed, 12);
     let n = if thorough { 260 } else { 60 };
@@ -366,6 +404,7 @@ pub fn record_c12(rec: &mut Recorder, seed: u64, thorough: bool) {
         }
     }
     tiny_frequency_c12(rec, &mut rng, thorough);
+    near_attainable_c12(rec, &mut rng, thorough);
 }
 
 pub fn record_c13(rec: &mut Recorder, seed: u64, thorough: bool) {
